@@ -1,10 +1,19 @@
-HOOK_COMMITS = ["7de202d", "7f6c320"]
+HOOK_COMMITS = ["7de202d", "7f6c320", "bd5f58f"]
 FIX_COMMITS = ["7a73b90", "307c7cf", "73e9739", "b6ad768", "06a0422", "37593fd", "b26bda1", "ef4414e", "83534a3", "9d32858", "8df6799", "bfa46be", "d5169bc", "e984a30", "8e975df", "0e9fd95"]
 
 NOTE_COMMON = ("Trusted: Lean kernel (axioms propext/Classical.choice/Quot.sound only), the hand-written model's "
                "fidelity outside the sampled correspondence, rustc/std and third-party crates as black boxes, the guarded hooks.")
 
 CLAIMS = {
+    "C07": {
+        "level": "Kernel-checked for every history of commands, undos and redos, where a command is *any* transformation of the text (the machine is parametric in the "
+                 "editor): the two stacks always chain back from the current text; u gives the text before the most recent undoable change (for an insert run: before "
+                 "the run); <c-r> after u gives back exactly the text u replaced; |undo| u's reach the original input; undo/redo only ever show texts that were states of "
+                 "the buffer; no transition fails (the pre-fix splice needed pos = 0: kept as a lemma). Every run replays histories of 1-12 edits interleaved with u/<c-r> "
+                 "through the real editor, feeds the observed (verb class, text) sequence to the machine and compares text and both stacks after every LineBuf::exec_cmd.",
+        "note": NOTE_COMMON + " Edit::diff's byte prefix/suffix is not part of the machine (only whole-buffer snapshots matter after fix 307c7cf); cursor placement after undo is outside C07.",
+        "technique": "Lean 4 proof (invariant by induction over operations, refinement to 'list of earlier texts') + per-command correspondence through the key-loop trace hook",
+    },
     "C01": {
         "level": "Kernel-checked for every post-command buffer, every start cursor, every end cursor and every selection (hence every command, including failing "
                  "and overshooting ones): the field is the graphemes between the two cursor positions, both included, clamped to the text; it is cut at grapheme "
